@@ -154,7 +154,9 @@ def fold_rule(rep, f, L, ph, init, seed_param, shift=0):
             srcs = [v]
         for s_ in srcs:
             si = f.inst_of(s_)
-            if s_.k == 'arg' or s_.k == 'ci':
+            if s_.k == 'arg' and seed_param is not None and f.params[s_.argno]['name'] == seed_param:
+                continue
+            if s_.k == 'ci' and seed_param is None and s_.uval == 0:
                 continue
             if si is not None and (si.id == ph.id or any(x.k == 'inst' and x.id == si.id for (_, x) in ph.incoming)):
                 continue
@@ -163,6 +165,66 @@ def fold_rule(rep, f, L, ph, init, seed_param, shift=0):
             good = False
     rep.inst('R-FOLD', f.name, 'returns-register%s' % ('>>%d' % shift if shift else ''), good and n > 0, where,
              None if good and n else 'the value returned is not the CRC register (shifted by %d)' % shift)
+
+
+def whole_rule(rep, mod, fname, width, poly, reflected, seed_name, data_name, len_name, word=False, shift=0,
+               state_bits=None, lengths=(0, 1, 2, 3, 4, 5, 7, 8, 9)):
+    """R-CRCWHOLE: for fixed small lengths the whole function, evaluated in the GF(2) domain with symbolic seed and
+    symbolic data bytes, equals the definition folded over the bytes; control flow must not depend on the data"""
+    from gf2 import FuncEval, DataDependentBranch
+    f = mod.fn(fname)
+    where = '%s:%d' % (f.file, f.line)
+    names = [p['name'] for p in f.params]
+    for L in lengths:
+        args = []
+        for p in f.params:
+            if p['name'] == len_name:
+                args.append(BV.const(p['ty']['bits'], L))
+            elif p['name'] == seed_name:
+                args.append(BV.sym(p['ty']['bits'], 'c'))
+            elif p['name'] == data_name:
+                args.append(('p', 'data', 0))
+            else:
+                args.append(BV.sym(p['ty'].get('bits', 8), 'x_' + p['name']))
+        ev = FuncEval(f, mod, args)
+        try:
+            out = ev.run()
+        except DataDependentBranch as e:
+            rep.inst('R-CRCWHOLE', fname, 'length=%d' % L, False, e.inst.where(),
+                     'with length %d the control flow depends on the data or seed value (branch at %s): some inputs '
+                     'take a path that does not apply the CRC definition' % (L, e.inst.where()))
+            continue
+        bad_reads = [r for r in ev.reads if r[1] < 0 or r[1] + r[2] > L]
+        if bad_reads:
+            r = bad_reads[0]
+            rep.inst('R-CRCWHOLE', fname, 'length=%d' % L, False, r[3].where(),
+                     'with length %d the routine reads %d byte(s) at offset %d of the data' % (L, r[2], r[1]))
+            continue
+        # reference
+        sw = state_bits or width
+        st = BV.sym(width, 'c') if seed_name else BV.const(width, 0)
+        if state_bits:
+            st = BV.const(state_bits, 0)
+        if word:
+            k = 0
+            while k < L:
+                n = min(4, L - k)
+                wbits = []
+                for j in range(4):
+                    wbits += (ev.byte('data', k + j).bits if j < n else [frozenset()] * 8)
+                st = crc_step_ref(st, BV(32, wbits), poly, 32, False, nbits=32)
+                k += 4
+        else:
+            for k in range(L):
+                st = crc_step_ref(st, ev.byte('data', k), poly, sw, reflected)
+        want = st
+        ok = isinstance(out, BV) and out.w >= sw and out.trunc(sw) == want and \
+            all(not b for b in out.bits[sw:])
+        rep.inst('R-CRCWHOLE', fname, 'length=%d' % L, ok, where,
+                 None if ok else 'for length %d the value returned differs from the definition folded over the %d byte(s) '
+                 '(seed and data symbolic): got bit0=%s, definition bit0=%s' % (
+                     L, L, '^'.join(sorted(out.bits[0])) if isinstance(out, BV) else out,
+                     '^'.join(sorted(want.bits[0]))))
 
 
 def strm_rule(rep, mod):
@@ -307,7 +369,9 @@ def run(rep, repo, tier):
         '0x8C for both the bit-serial and the 2x16-table routine, CRC-16 0x1021, MMC CRC-7 0x09, streaming CRC-8 '
         '0x31, CRC-32 0x04C11DB7 word-wise). Fold structure (seeded from the parameter, result returned) gives '
         'chunked == one-shot; linearity in crc^byte gives residue 0. Abstract interpretation proves every data read '
-        'is a byte inside [data, data+length).')
+        'is a byte inside [data, data+length). Additionally, for fixed lengths 0..9 (CRC-32: up to 13) the whole function is '
+        'evaluated in the same domain with symbolic seed and data: it must equal the definition folded over the bytes, and '
+        'its control flow must not depend on data values.')
     rep.assumptions += ['the bit loops have a fixed trip count that LLVM unrolls completely (otherwise analysis-broken)',
                         'data points to at least length bytes']
     src = repo + '/igris/util/crc.c'
@@ -322,6 +386,12 @@ def run(rep, repo, tier):
         if r:
             fold_rule(rep, *r, seed_param=seed, shift=shift)
     word_rule(rep, mod)
+    whole_rule(rep, mod, 'igris_crc8', 8, 0x8C, True, 'crc_init', 'data', 'len')
+    whole_rule(rep, mod, 'igris_crc8_table', 8, 0x8C, True, 'crc_init', 'addr', 'len')
+    whole_rule(rep, mod, 'igris_crc16', 16, 0x1021, False, 'crc_init', 'data', 'length')
+    whole_rule(rep, mod, 'igris_mmc_crc7', 8, 0x09, False, None, 'message', 'length', state_bits=7)
+    whole_rule(rep, mod, 'igris_crc32', 32, 0x04C11DB7, False, 'crc_init', 'data', 'length', word=True,
+               lengths=(0, 1, 2, 3, 4, 5, 6, 7, 8, 9, 12, 13))
     modw = compile_ir(os.path.join(WIT, 'w_crc.c'), repo, passes=UNROLL_PASSES, opt_args=UNROLL_ARGS)
     rep.units.append('witness/w_crc.c -> igris/util/crc.h (unrolled)')
     strm_rule(rep, modw)
@@ -354,6 +424,7 @@ def run(rep, repo, tier):
                              None if i.bits == 8 else 'a %d-bit load through the data pointer (needs alignment, reads past '
                              'a short tail)' % i.bits)
     rep.floor('R-CRCSTEP', 8)
+    rep.floor('R-CRCWHOLE', 40)
     rep.floor('R-FOLD', 8)
     rep.floor('R-CRCREAD:bounds', 5)
     rep.floor('R-CRCWIDTH', 5)
